@@ -20,6 +20,8 @@ import Poulpy.Lemmas.EpTotal
 import Poulpy.Lemmas.CswapTotal
 import Poulpy.Lemmas.HeadRoom
 import Poulpy.Lemmas.ExpandTotal
+import Poulpy.Lemmas.EpConvert
+import Poulpy.Lemmas.CmuxSelect
 import Poulpy.Lemmas.MulNorm
 
 /-!
@@ -1327,5 +1329,549 @@ example (σ : ℕ → Ks.R 1) : C02L.GWF 1 (Ks.mkCt 4 1 [[[1], [0], [0]], [[3], 
     (by decide) (by decide) rfl (Ks.entry_length (exT.at 0).toPMat 1 rfl (by decide)) (by decide) (by decide) rfl
     (by intro i _ r _; exact (add_sub_cancel _ _).symm) rfl
   exact h.1
+
+/-! ## Any input radix: the conversion discharged, covered regime -/
+
+/-- the executable shape check gives the well-formedness predicate -/
+theorem wf_of_shapeOk (n cols size : Nat) (x : List Col) (h : shapeOk n cols size x = true) : x.length = cols ∧ ∀ c ∈ x, C02L.ColWF n size c := by
+  unfold shapeOk at h
+  simp only [Bool.and_eq_true, beq_iff_eq, List.all_eq_true] at h
+  exact ⟨h.1, fun c hc => ⟨(h.2 c hc).1, fun l hl => (h.2 c hc).2 l hl⟩⟩
+
+/-- the gadget terms of an external product: `Σ_i (Σ_r digit·E − dropped − β^S·head)` -/
+noncomputable def epErr (N : Nat) (sk : List Poly) (a : List Col) (g : EpGGSW) (β : Ks.R N) (E : ℕ → ℕ → Ks.R N) : Ks.R N :=
+  ∑ i ∈ Finset.range (g.rank + 1),
+    (∑ r ∈ Finset.range g.dnum,
+        Gadget.digit β g.dsize g.dnum (a.getD 0 []).length (Ks.inLimb N (mkBuf g.n (g.rank + 1) (a.getD 0 []).length a) i) r * E i r
+      - Gadget.dropped β g.size g.dsize g.dnum (a.getD 0 []).length
+          (Ks.inLimb N (mkBuf g.n (g.rank + 1) (a.getD 0 []).length a) i) (Ks.keyPhase N sk g.toPMat i)
+      - β ^ g.size * Gadget.head β g.dsize g.dnum (a.getD 0 []).length
+          (Ks.inLimb N (mkBuf g.n (g.rank + 1) (a.getD 0 []).length a) i) (Ks.keyPhase N sk g.toPMat i))
+
+example : ([[[1], [0]], [[2], [3]]] : List Col).length = 2 ∧ ∀ c ∈ ([[[1], [0]], [[2], [3]]] : List Col), C02L.ColWF 1 2 c :=
+  wf_of_shapeOk 1 2 2 _ (by decide)
+
+/-- **`ep_decrypts_any_radix`** — `glwe_external_product` END TO END with NO conversion hypothesis: input in ANY radix `1..62` (converted by
+`glwe_normalize` into the GGSW radix — `Core.epConvert_total`: it returns and is exact on the torus), result in any radix, every `dsize ≥ 1`, every
+rank, both accumulator widths, covered regime (`⌈sa·ab/bg⌉ ≤ min(size, dnum·dsize)`), head-room derived from digit bounds (`Core.prodAdmissible`).
+With `σ_0 = 1`, `σ_{i+1} = s_i`:
+`2^(ab·sa + bg·S)·phase(res) = 2^(rb·rs)·(2^(bg·S)·m2·phase(a) + 2^(ab·sa)·epErr) + 2^(ab·sa)·En + 2^(ab·sa+rb·rs+bg·S)·Q` — the result decrypts to
+`m2 · phase(a)` plus the gadget error (`epErr = Σ_i(Σ_r digit·E − dropped − β^S·head)` on the converted input) and the final rounding
+`‖En‖_∞ ≤ (1+Σ‖s_i‖₁)·normTol` (`0` when `bg·S ≤ rb·rs`). -/
+theorem ep_decrypts_any_radix {N : Nat} (big128 : Bool) (rb rs ab : Nat) (a : List Col) (g : EpGGSW) (sk : List Poly) (Hin Da Dm : Int)
+    (hg : (g.n == N && g.wf && shapeOk N (g.rank + 1) (a.getD 0 []).length a) = true)
+    (hrb1 : 1 ≤ rb) (hrb : rb ≤ 62) (hab1 : 1 ≤ ab) (hab : ab ≤ 62) (hgb1 : 1 ≤ g.base2k) (hgb : g.base2k ≤ 62)
+    (hH0 : 0 ≤ Hin) (hH : Hin + 8 ≤ 2 ^ 62) (hb : ∀ c ∈ a, ∀ l ∈ c, ∀ x ∈ l, |x| ≤ Hin)
+    (hDa : if ab = g.base2k then Hin ≤ Da else 2 ^ g.base2k - 1 ≤ Da) (hDm : 0 ≤ Dm)
+    (hadm : prodAdmissible (bitsOf big128) g.dsize (g.rank + 1) g.dnum N Da Dm 0)
+    (hgd : ∀ row ∈ g.cells, ∀ c ∈ row, ∀ l ∈ c, ∀ x ∈ l, |x| ≤ Dm)
+    (m2 : Ks.R N) (σ : ℕ → Ks.R N) (E : ℕ → ℕ → Ks.R N)
+    (hd : 1 ≤ g.dsize) (hN : 0 < N) (hn : g.n = N)
+    (hM : ∀ j q, (g.toPMat.entry j q).length = N) (hS : g.dnum * g.dsize ≤ g.size)
+    (hkey : ∀ i, i < g.rank + 1 → ∀ r, r < g.dnum →
+      Gadget.val ((2 : Ks.R N) ^ g.base2k) g.size (Ks.keyPhase N sk g.toPMat i r)
+        = m2 * σ i * ((2 : Ks.R N) ^ g.base2k) ^ (g.size - (r + 1) * g.dsize) + E i r)
+    (hcov1 : epConvSize (a.getD 0 []).length ab g.base2k ≤ g.size)
+    (hcov2 : epConvSize (a.getD 0 []).length ab g.base2k ≤ g.dnum * g.dsize)
+    (hsk : g.rank ≤ sk.length) (hσ0 : σ 0 = 1) (hσ : ∀ i, i < g.rank → σ (i + 1) = Ks.ι N (sk.getD i [])) :
+    ∃ res aConv, glweExternalProduct big128 N rb rs a ab g = .ok res ∧ epConvert N a ab g = some aConv ∧
+      C02L.GWF N (Ks.mkCt rb N res) ∧ (∀ c ∈ res, ∀ l ∈ c, ∀ x ∈ l, |x| ≤ 2 ^ rb - 1) ∧
+      ∃ (En : Poly) (Qr : Ks.R N), En.length = N ∧
+        normInf En ≤ (1 + C02L.snorm (min g.rank sk.length) sk) * C02.normTol (rb * rs) (g.base2k * g.size) ∧
+        (2 : Ks.R N) ^ (ab * (a.getD 0 []).length + g.base2k * g.size) * Ks.ι N (C02L.valP rb N (Core.Ops.phase sk (Ks.mkCt rb N res)))
+          = (2 : Ks.R N) ^ (rb * rs) *
+              ((2 : Ks.R N) ^ (g.base2k * g.size) * m2 * Ks.ι N (C02L.valP ab N (Core.Ops.phase sk (Ks.mkCt ab N a)))
+                + (2 : Ks.R N) ^ (ab * (a.getD 0 []).length) * epErr N sk aConv g ((2 : Ks.R N) ^ g.base2k) E)
+            + (2 : Ks.R N) ^ (ab * (a.getD 0 []).length) * Ks.ι N En
+            + (2 : Ks.R N) ^ (ab * (a.getD 0 []).length + rb * rs + g.base2k * g.size) * Qr := by
+  have hg' := hg
+  simp only [Bool.and_eq_true, beq_iff_eq] at hg'
+  obtain ⟨⟨_, _⟩, hsh⟩ := hg'
+  obtain ⟨hal, hawf⟩ := wf_of_shapeOk N _ _ a hsh
+  have hane : a ≠ [] := by intro h; rw [h] at hal; simp at hal
+  set sa := (a.getD 0 []).length with hsa
+  obtain ⟨aConv, hc, hcl, hcwf, hcdig, hcph⟩ := epConvert_total N hN a ab g sa Hin hane hawf hab1 hab hgb1 hgb hH0 hH hb
+  set cs := epConvSize sa ab g.base2k with hcs
+  have hDa0 : 0 ≤ Da := by
+    split at hDa
+    · linarith
+    · have : (1 : Int) ≤ 2 ^ g.base2k := one_le_pow₀ (by norm_num)
+      linarith
+  have hcb : ∀ c ∈ aConv, ∀ l ∈ c, ∀ x ∈ l, |x| ≤ Da := by
+    intro c hc' l hl x hx
+    have := hcdig c hc' l hl x hx
+    split at this <;> split at hDa <;> first | linarith | contradiction
+  have hcl' : aConv.length = g.rank + 1 := by rw [hcl, hal]
+  have h0c : 0 < aConv.length := by rw [hcl']; omega
+  have hcs0 : (aConv.getD 0 []).length = cs := by
+    rw [List.getD_eq_getElem?_getD, List.getElem?_eq_getElem h0c]; exact (hcwf _ (List.getElem_mem h0c)).1
+  have haC : shapeOk g.n (g.rank + 1) (aConv.getD 0 []).length aConv = true := by
+    rw [hn, hcs0]
+    unfold shapeOk
+    simp only [Bool.and_eq_true, beq_iff_eq, List.all_eq_true]
+    exact ⟨hcl', fun c hc' => ⟨(hcwf c hc').1, fun l hl => (hcwf c hc').2 l hl⟩⟩
+  obtain ⟨res, hres, hgwf, hdig, En, Q, hE, hQ, hnm, heq⟩ := ep_decrypts_of_digits big128 rb rs ab a aConv g sk Da Dm hg hc hrb1 hrb hgb1 hgb
+    hDa0 hDm hadm hcb hgd m2 σ E hd hN hn haC hM hS hkey
+  obtain ⟨Q1, hQ1, hconv⟩ := hcph sk
+  have hcov := ep_covered_value N hN aConv g sk σ cs hcl' hcwf hd hcov1 hcov2 hsk hσ0 hσ
+  refine ⟨res, aConv, hres, hc, hgwf, hdig, En, Ks.ι N Q + m2 * Ks.ι N Q1, hE, hnm, ?_⟩
+  unfold epValue at heq
+  unfold epErr
+  rw [hcov] at heq
+  have hpow : ((2 : Ks.R N) ^ g.base2k) ^ (g.size - cs) * (2 : Ks.R N) ^ (g.base2k * cs) = (2 : Ks.R N) ^ (g.base2k * g.size) := by
+    rw [← pow_mul, ← pow_add]
+    congr 1
+    have : g.base2k * (g.size - cs) + g.base2k * cs = g.base2k * g.size := by
+      rw [← Nat.mul_add]; congr 1; omega
+    exact this
+  have e1 : (2 : Ks.R N) ^ (ab * sa + g.base2k * g.size) = (2 : Ks.R N) ^ (ab * sa) * (2 : Ks.R N) ^ (g.base2k * g.size) := pow_add _ _ _
+  have e2 : (2 : Ks.R N) ^ (ab * sa + rb * rs + g.base2k * g.size)
+      = (2 : Ks.R N) ^ (ab * sa) * (2 : Ks.R N) ^ (rb * rs) * (2 : Ks.R N) ^ (g.base2k * g.size) := by rw [pow_add, pow_add]
+  have e3 : (2 : Ks.R N) ^ (rb * rs + g.base2k * g.size) = (2 : Ks.R N) ^ (rb * rs) * (2 : Ks.R N) ^ (g.base2k * g.size) := pow_add _ _ _
+  have e4 : (2 : Ks.R N) ^ (g.base2k * cs + ab * sa) = (2 : Ks.R N) ^ (g.base2k * cs) * (2 : Ks.R N) ^ (ab * sa) := pow_add _ _ _
+  rw [e3] at heq
+  rw [e4] at hconv
+  rw [e1, e2]
+  linear_combination ((2 : Ks.R N) ^ (ab * sa)) * heq
+    + ((2 : Ks.R N) ^ (rb * rs) * m2 * ((2 : Ks.R N) ^ g.base2k) ^ (g.size - cs)) * hconv
+    + ((2 : Ks.R N) ^ (rb * rs) * m2 * Ks.ι N (C02L.valP ab N (Core.Ops.phase sk (Ks.mkCt ab N a)))
+        + (2 : Ks.R N) ^ (ab * sa) * (2 : Ks.R N) ^ (rb * rs) * m2 * Ks.ι N Q1) * hpow
+
+/-- cross radix (`2^2 → 2^4`), `dsize = 3` GGSW `staleG`, NTT120 accumulator, every hypothesis discharged -/
+example (m2 : Ks.R 1) : ∃ res aConv, glweExternalProduct true 1 4 4 [[[1], [0]], [[0], [1]]] 2 staleG = .ok res ∧
+    epConvert 1 [[[1], [0]], [[0], [1]]] 2 staleG = some aConv ∧ C02L.GWF 1 (Ks.mkCt 4 1 res) := by
+  obtain ⟨res, aConv, h1, h2, h3, _⟩ := ep_decrypts_any_radix (N := 1) true 4 4 2 [[[1], [0]], [[0], [1]]] staleG [[1]] 1 15 1
+    (by decide) (by decide) (by decide) (by decide) (by decide) (by decide) (by decide) (by decide) (by decide) (by decide)
+    (by decide) (by decide) (by decide) (by decide)
+    m2 (fun i => if i = 0 then 1 else Ks.ι 1 [1])
+    (fun i r => Gadget.val ((2 : Ks.R 1) ^ staleG.base2k) staleG.size (Ks.keyPhase 1 [[1]] staleG.toPMat i r)
+      - m2 * (if i = 0 then 1 else Ks.ι 1 [1]) * ((2 : Ks.R 1) ^ staleG.base2k) ^ (staleG.size - (r + 1) * staleG.dsize))
+    (by decide) (by decide) rfl (Ks.entry_length staleG.toPMat 1 rfl (by decide)) (by decide)
+    (by intro i _ r _; exact (add_sub_cancel _ _).symm)
+    (by decide) (by decide) (by decide) rfl
+    (by intro i hi; have : i = 0 := by
+          have : i < 1 := hi
+          omega
+        subst this; rfl)
+  exact ⟨res, aConv, h1, h2, h3⟩
+
+/-! ## GGSW × GGLWE / GGSW × GGSW as whole matrices -/
+
+/-- what `ep_decrypts_any_radix` guarantees about one cell -/
+def EpCellSpec (N rb rs ab : Nat) (a : List Col) (g : EpGGSW) (sk : List Poly) (m2 : Ks.R N) (E : ℕ → ℕ → Ks.R N) (res : List Col) : Prop :=
+  ∃ aConv, epConvert N a ab g = some aConv ∧
+    C02L.GWF N (Ks.mkCt rb N res) ∧ (∀ c ∈ res, ∀ l ∈ c, ∀ x ∈ l, |x| ≤ 2 ^ rb - 1) ∧
+    ∃ (En : Poly) (Qr : Ks.R N), En.length = N ∧
+      normInf En ≤ (1 + C02L.snorm (min g.rank sk.length) sk) * C02.normTol (rb * rs) (g.base2k * g.size) ∧
+      (2 : Ks.R N) ^ (ab * (a.getD 0 []).length + g.base2k * g.size) * Ks.ι N (C02L.valP rb N (Core.Ops.phase sk (Ks.mkCt rb N res)))
+        = (2 : Ks.R N) ^ (rb * rs) *
+            ((2 : Ks.R N) ^ (g.base2k * g.size) * m2 * Ks.ι N (C02L.valP ab N (Core.Ops.phase sk (Ks.mkCt ab N a)))
+              + (2 : Ks.R N) ^ (ab * (a.getD 0 []).length) * epErr N sk aConv g ((2 : Ks.R N) ^ g.base2k) E)
+          + (2 : Ks.R N) ^ (ab * (a.getD 0 []).length) * Ks.ι N En
+          + (2 : Ks.R N) ^ (ab * (a.getD 0 []).length + rb * rs + g.base2k * g.size) * Qr
+
+/-- the cell loop of the matrix forms returns the list of its cells when every cell does -/
+theorem matFold_ok (big128 : Bool) (n rb rs rowsRes rowsA colsIn : Nat) (a : List (List Col)) (ab : Nat) (g : EpGGSW)
+    (c : Nat → List Col) (m : Nat)
+    (h : ∀ q, q < m → (if q / colsIn < min rowsRes rowsA then glweExternalProduct big128 n rb rs (a.getD q []) ab g
+          else .ok (zeroCols n (g.rank + 1) rs)) = .ok (c q)) :
+    (List.range m).foldl (fun (acc : Outcome (List (List Col))) q =>
+      match acc with
+      | .ok cells =>
+        if q / colsIn < min rowsRes rowsA then
+          match glweExternalProduct big128 n rb rs (a.getD q []) ab g with
+          | .ok c => .ok (cells ++ [c])
+          | .err e => .err e
+          | .panic p => .panic p
+        else .ok (cells ++ [zeroCols n (g.rank + 1) rs])
+      | o => o) (.ok []) = .ok ((List.range m).map c) := by
+  induction m with
+  | zero => rfl
+  | succ k ih =>
+    rw [List.range_succ, List.foldl_append, ih (fun q hq => h q (by omega))]
+    simp only [List.foldl_cons, List.foldl_nil, List.map_append, List.map_cons, List.map_nil]
+    have hk := h k (by omega)
+    by_cases hc : k / colsIn < min rowsRes rowsA
+    · rw [if_pos hc] at hk ⊢
+      rw [hk]
+    · rw [if_neg hc] at hk ⊢
+      injection hk with hk
+      rw [hk]
+
+example : (List.range 1).foldl (fun (acc : Outcome (List (List Col))) q =>
+      match acc with
+      | .ok cells =>
+        if q / 2 < min 1 0 then
+          match glweExternalProduct false 1 4 4 (([] : List (List Col)).getD q []) 4 staleG with
+          | .ok c => .ok (cells ++ [c])
+          | .err e => .err e
+          | .panic p => .panic p
+        else .ok (cells ++ [zeroCols 1 (staleG.rank + 1) 4])
+      | o => o) (.ok []) = .ok ((List.range 1).map (fun _ => zeroCols 1 2 4)) :=
+  matFold_ok false 1 4 4 1 0 2 [] 4 staleG (fun _ => zeroCols 1 2 4) 1 (by
+    intro q hq
+    have h0 : q = 0 := by omega
+    subst h0
+    rfl)
+
+/-- **`mat_external_product_decrypts`** — `ggsw_external_product` / `gglwe_external_product` as WHOLE matrices (∀-cell corollary of
+`ep_decrypts_any_radix`): the call returns `rowsRes·colsIn` cells; every cell of the common rows is `glwe_external_product` of the
+operand's cell and satisfies `EpCellSpec` (decrypts to `m2·phase(cell)` + gadget error + rounding, the SAME `m2` in every cell); every cell of
+the rows beyond the operand's (`res.dnum > a.dnum`, GGSW form only — the GGLWE form panics there) is ZERO in every column, including the last.
+(A seeded change that dropped the zero fill of the last column is caught by `./check C04`: the model's zero cells disagree with all four
+back ends and the oracle reports "row beyond the operand's rows is not zero".) -/
+theorem mat_external_product_decrypts {N : Nat} (big128 gglwe : Bool) (rb rs rowsRes rowsA colsIn ab : Nat) (a : List (List Col)) (g : EpGGSW)
+    (sk : List Poly) (sa : Nat) (Hin Da Dm : Int)
+    (hrbab : rb = ab) (hrows : ¬ (gglwe = true ∧ rowsRes > rowsA))
+    (hcell : ∀ q, q < rowsRes * colsIn → q / colsIn < min rowsRes rowsA →
+      (g.n == N && g.wf && shapeOk N (g.rank + 1) sa (a.getD q [])) = true ∧ ∀ c ∈ a.getD q [], ∀ l ∈ c, ∀ x ∈ l, |x| ≤ Hin)
+    (hrb1 : 1 ≤ rb) (hrb : rb ≤ 62) (hgb1 : 1 ≤ g.base2k) (hgb : g.base2k ≤ 62)
+    (hH0 : 0 ≤ Hin) (hH : Hin + 8 ≤ 2 ^ 62)
+    (hDa : if ab = g.base2k then Hin ≤ Da else 2 ^ g.base2k - 1 ≤ Da) (hDm : 0 ≤ Dm)
+    (hadm : prodAdmissible (bitsOf big128) g.dsize (g.rank + 1) g.dnum N Da Dm 0)
+    (hgd : ∀ row ∈ g.cells, ∀ c ∈ row, ∀ l ∈ c, ∀ x ∈ l, |x| ≤ Dm)
+    (m2 : Ks.R N) (σ : ℕ → Ks.R N) (E : ℕ → ℕ → Ks.R N)
+    (hd : 1 ≤ g.dsize) (hN : 0 < N) (hn : g.n = N)
+    (hM : ∀ j q, (g.toPMat.entry j q).length = N) (hS : g.dnum * g.dsize ≤ g.size)
+    (hkey : ∀ i, i < g.rank + 1 → ∀ r, r < g.dnum →
+      Gadget.val ((2 : Ks.R N) ^ g.base2k) g.size (Ks.keyPhase N sk g.toPMat i r)
+        = m2 * σ i * ((2 : Ks.R N) ^ g.base2k) ^ (g.size - (r + 1) * g.dsize) + E i r)
+    (hcov1 : epConvSize sa ab g.base2k ≤ g.size) (hcov2 : epConvSize sa ab g.base2k ≤ g.dnum * g.dsize)
+    (hsk : g.rank ≤ sk.length) (hσ0 : σ 0 = 1) (hσ : ∀ i, i < g.rank → σ (i + 1) = Ks.ι N (sk.getD i [])) :
+    ∃ cells, matExternalProduct big128 N rb rs rowsRes rowsA colsIn a ab g gglwe = .ok cells ∧ cells.length = rowsRes * colsIn ∧
+      ∀ q, q < rowsRes * colsIn →
+        (q / colsIn < min rowsRes rowsA →
+          glweExternalProduct big128 N rb rs (a.getD q []) ab g = .ok (cells.getD q []) ∧
+          EpCellSpec N rb rs ab (a.getD q []) g sk m2 E (cells.getD q [])) ∧
+        (min rowsRes rowsA ≤ q / colsIn → cells.getD q [] = zeroCols N (g.rank + 1) rs) := by
+  have hab1 : 1 ≤ ab := by rw [← hrbab]; exact hrb1
+  have hab : ab ≤ 62 := by rw [← hrbab]; exact hrb
+  -- every computed cell
+  have hq : ∀ q, ∃ res, q < rowsRes * colsIn → q / colsIn < min rowsRes rowsA →
+      glweExternalProduct big128 N rb rs (a.getD q []) ab g = .ok res ∧ EpCellSpec N rb rs ab (a.getD q []) g sk m2 E res := by
+    intro q
+    by_cases hc : q < rowsRes * colsIn ∧ q / colsIn < min rowsRes rowsA
+    · obtain ⟨hg, hb⟩ := hcell q hc.1 hc.2
+      have hsa : ((a.getD q []).getD 0 []).length = sa := by
+        have hg' := hg
+        simp only [Bool.and_eq_true, beq_iff_eq] at hg'
+        obtain ⟨hl, hwf⟩ := wf_of_shapeOk N _ _ _ hg'.2
+        have h0 : 0 < (a.getD q []).length := by rw [hl]; omega
+        rw [List.getD_eq_getElem?_getD, List.getElem?_eq_getElem h0]; exact (hwf _ (List.getElem_mem h0)).1
+      obtain ⟨res, aConv, h1, h2, h3, h4, h5⟩ := ep_decrypts_any_radix big128 rb rs ab (a.getD q []) g sk Hin Da Dm (by rw [hsa]; exact hg)
+        hrb1 hrb hab1 hab hgb1 hgb hH0 hH hb hDa hDm hadm hgd m2 σ E hd hN hn hM hS hkey (by rw [hsa]; exact hcov1) (by rw [hsa]; exact hcov2)
+        hsk hσ0 hσ
+      exact ⟨res, fun _ _ => ⟨h1, aConv, h2, h3, h4, h5⟩⟩
+    · exact ⟨[], fun h1 h2 => absurd ⟨h1, h2⟩ hc⟩
+  choose cellOf hcellOf using hq
+  let c : Nat → List Col := fun q => if q / colsIn < min rowsRes rowsA then cellOf q else zeroCols N (g.rank + 1) rs
+  have hfold := matFold_ok big128 N rb rs rowsRes rowsA colsIn a ab g c (rowsRes * colsIn) (by
+    intro q hqlt
+    by_cases hc : q / colsIn < min rowsRes rowsA
+    · simp only [c, hc, if_true]; exact (hcellOf q hqlt hc).1
+    · simp only [c, hc, if_false])
+  refine ⟨(List.range (rowsRes * colsIn)).map c, ?_, by simp, ?_⟩
+  · unfold matExternalProduct
+    rw [if_neg (by rw [hrbab]; simp)]
+    have hr' : ¬ (gglwe && decide (rowsRes > rowsA)) = true := by
+      intro h
+      simp only [Bool.and_eq_true, decide_eq_true_eq] at h
+      exact hrows h
+    rw [if_neg hr']
+    exact hfold
+  · intro q hqlt
+    have hget : ((List.range (rowsRes * colsIn)).map c).getD q [] = c q := getD_range_map _ q c hqlt
+    rw [hget]
+    constructor
+    · intro hc
+      simp only [c, hc, if_true]
+      exact hcellOf q hqlt hc
+    · intro hc
+      have : ¬ q / colsIn < min rowsRes rowsA := by omega
+      simp only [c, this, if_false]
+
+/-- GGSW × GGSW with a result of MORE rows than the operand (`rowsRes = 2 > rowsA = 1`): the extra row is zero in every column -/
+example (m2 : Ks.R 1) : ∃ cells, matExternalProduct true 1 4 4 2 1 2 [[[[1], [2], [3]], [[0], [1], [0]]], [[[1], [2], [3]], [[0], [1], [0]]]] 4 staleG false = .ok cells ∧ cells.length = 4 ∧
+    cells.getD 2 [] = zeroCols 1 2 4 ∧ cells.getD 3 [] = zeroCols 1 2 4 := by
+  obtain ⟨cells, h1, h2, h3⟩ := mat_external_product_decrypts (N := 1) true false 4 4 2 1 2 4 [[[[1], [2], [3]], [[0], [1], [0]]], [[[1], [2], [3]], [[0], [1], [0]]]] staleG [[1]] 3 3 3 1
+    rfl (by decide)
+    (by
+      intro q hq hrow
+      have hq2 : q < 2 := by
+        have : q / 2 < 1 := by simpa using hrow
+        omega
+      have : q = 0 ∨ q = 1 := by omega
+      rcases this with rfl | rfl <;> exact ⟨by decide, by decide⟩)
+    (by decide) (by decide) (by decide) (by decide) (by decide) (by decide) (by decide) (by decide) (by decide) (by decide)
+    m2 (fun i => if i = 0 then 1 else Ks.ι 1 [1])
+    (fun i r => Gadget.val ((2 : Ks.R 1) ^ staleG.base2k) staleG.size (Ks.keyPhase 1 [[1]] staleG.toPMat i r)
+      - m2 * (if i = 0 then 1 else Ks.ι 1 [1]) * ((2 : Ks.R 1) ^ staleG.base2k) ^ (staleG.size - (r + 1) * staleG.dsize))
+    (by decide) (by decide) rfl (Ks.entry_length staleG.toPMat 1 rfl (by decide)) (by decide)
+    (by intro i _ r _; exact (add_sub_cancel _ _).symm)
+    (by decide) (by decide) (by decide) rfl
+    (by intro i hi; have : i = 0 := by
+          have : i < 1 := hi
+          omega
+        subst this; rfl)
+  exact ⟨cells, h1, h2, (h3 2 (by decide)).2 (by decide), (h3 3 (by decide)).2 (by decide)⟩
+
+/-! ## CMux on its inputs: the result decrypts to `t` or `f` by the GGSW bit, plus explicit noise -/
+
+/-- **`cmux_selects_with_noise`** — `Cmux::cmux(res, t, f, s)` stated on the INPUTS `(t, f, bit)` only, every shape (`dsize ≥ 1`, rank, limb
+counts with `rs ≤ min(size, dnum·dsize)`), both accumulator widths.  If the GGSW encrypts the bit (`hkey` with `m2 = bit`, explicit key error `E`),
+the call returns a well-formed ciphertext and
+`2^(b·S)·phase(res) = 2^(b·S)·phase(if bit then t else f) + 2^(b·rs)·epErr + En + 2^(b·rs+b·S)·Q`:
+the selected input, plus the gadget error of the difference (`epErr = Σ_i(Σ_r digit·E − dropped − β^S·head)` on `d = t − f`), plus the final
+rounding `‖En‖_∞ ≤ (1+Σ‖s_i‖₁)·normTol`.  The difference is the executed `glwe_sub`, exact under head-room (`Core.glweSub_exact`, the column form of
+`C02.sub_phase`: `phase(d) = phase(t) − phase(f)`); the accumulator head-room is derived from the digit bound `Hin` (`ep_headroom`, one decidable
+`Core.prodAdmissible`).  This is the statement `bin-fhe`'s CMux trees cite. -/
+theorem cmux_selects_with_noise {N : Nat} (big128 : Bool) (rs : Nat) (t f : List Col) (g : EpGGSW) (res0 tmp0 : List Col) (sk : List Poly)
+    (bit : Bool) (Hin Dm : Int)
+    (hgn : g.n = N) (hgw : g.wf = true) (hts : shapeOk N (g.rank + 1) rs t = true) (hfs : shapeOk N (g.rank + 1) rs f = true)
+    (hgb1 : 1 ≤ g.base2k) (hgb : g.base2k ≤ 62)
+    (hH0 : 0 ≤ Hin) (hH : 2 * Hin < 2 ^ 62) (hDm : 0 ≤ Dm)
+    (htb : ∀ c ∈ t, ∀ l ∈ c, ∀ x ∈ l, |x| ≤ Hin) (hfb : ∀ c ∈ f, ∀ l ∈ c, ∀ x ∈ l, |x| ≤ Hin)
+    (hadm : prodAdmissible (bitsOf big128) g.dsize (g.rank + 1) g.dnum N (Hin + Hin) Dm Hin)
+    (hgd : ∀ row ∈ g.cells, ∀ c ∈ row, ∀ l ∈ c, ∀ x ∈ l, |x| ≤ Dm)
+    (σ : ℕ → Ks.R N) (E : ℕ → ℕ → Ks.R N)
+    (hd : 1 ≤ g.dsize) (hN : 0 < N) (h1rs : 1 ≤ rs)
+    (h0 : shapeOk g.n (g.rank + 1) g.size res0 = true) (ht : shapeOk g.n (g.rank + 1) g.size tmp0 = true)
+    (hM : ∀ j q, (g.toPMat.entry j q).length = N) (hS : g.dnum * g.dsize ≤ g.size)
+    (hkey : ∀ i, i < g.rank + 1 → ∀ r, r < g.dnum →
+      Gadget.val ((2 : Ks.R N) ^ g.base2k) g.size (Ks.keyPhase N sk g.toPMat i r)
+        = (if bit then 1 else 0) * σ i * ((2 : Ks.R N) ^ g.base2k) ^ (g.size - (r + 1) * g.dsize) + E i r)
+    (hcov1 : rs ≤ g.size) (hcov2 : rs ≤ g.dnum * g.dsize)
+    (hsk : g.rank ≤ sk.length) (hσ0 : σ 0 = 1) (hσ : ∀ i, i < g.rank → σ (i + 1) = Ks.ι N (sk.getD i [])) :
+    ∃ res, cmux big128 N g.base2k rs t f g res0 tmp0 = .ok res ∧ C02L.GWF N (Ks.mkCt g.base2k N res) ∧
+      (∀ c ∈ res, ∀ l ∈ c, ∀ x ∈ l, |x| ≤ 2 ^ g.base2k - 1) ∧
+      ∃ En Q : Poly, En.length = N ∧ Q.length = N ∧
+        normInf En ≤ (1 + C02L.snorm (min g.rank sk.length) sk) * C02.normTol (g.base2k * rs) (g.base2k * g.size) ∧
+        (2 : Ks.R N) ^ (g.base2k * g.size) * Ks.ι N (C02L.valP g.base2k N (Core.Ops.phase sk (Ks.mkCt g.base2k N res)))
+          = (2 : Ks.R N) ^ (g.base2k * g.size) * Ks.ι N (C02L.valP g.base2k N (Core.Ops.phase sk (Ks.mkCt g.base2k N (if bit then t else f))))
+            + (2 : Ks.R N) ^ (g.base2k * rs) * epErr N sk (glweSubSameRank N rs t f) g ((2 : Ks.R N) ^ g.base2k) E
+            + Ks.ι N En + (2 : Ks.R N) ^ (g.base2k * rs + g.base2k * g.size) * Ks.ι N Q := by
+  obtain ⟨htl, htw⟩ := wf_of_shapeOk N _ _ t hts
+  obtain ⟨hfl, hfw⟩ := wf_of_shapeOk N _ _ f hfs
+  have hH62 : Hin < 2 ^ 62 := by linarith
+  have h0t : 0 < t.length := by omega
+  have h0f : 0 < f.length := by omega
+  have ht0 : (t.getD 0 []).length = rs := by
+    rw [List.getD_eq_getElem?_getD, List.getElem?_eq_getElem h0t]; exact (htw _ (List.getElem_mem h0t)).1
+  have hf0 : (f.getD 0 []).length = rs := by
+    rw [List.getD_eq_getElem?_getD, List.getElem?_eq_getElem h0f]; exact (hfw _ (List.getElem_mem h0f)).1
+  have hg : (g.n == N && g.wf && g.base2k == g.base2k && shapeOk N (g.rank + 1) (t.getD 0 []).length t
+       && shapeOk N (g.rank + 1) (f.getD 0 []).length f) = true := by
+    rw [ht0, hf0]; simp [hgn, hgw, hts, hfs]
+  -- the difference
+  have hdeq := glweSub_exact N rs t f Hin hH62 (by rw [htl, hfl]) htw hfw htb hfb
+  rw [htl] at hdeq
+  have hdget : ∀ i, i < g.rank + 1 → C02L.ColWF N rs (C02L.colAdd (t.getD i []) ((f.getD i []).map polyNeg)) ∧
+      ∀ l ∈ C02L.colAdd (t.getD i []) ((f.getD i []).map polyNeg), ∀ x ∈ l, |x| ≤ Hin + Hin := by
+    intro i hi
+    have hit : i < t.length := by omega
+    have hif : i < f.length := by omega
+    have e1 : t.getD i [] = t[i] := by simp [List.getD_eq_getElem?_getD, List.getElem?_eq_getElem hit]
+    have e2 : f.getD i [] = f[i] := by simp [List.getD_eq_getElem?_getD, List.getElem?_eq_getElem hif]
+    rw [e1, e2]
+    exact ⟨C02L.colAdd_wf (htw _ (List.getElem_mem hit)) (neg_col_wf (hfw _ (List.getElem_mem hif))),
+      colAdd_bound _ _ Hin Hin (htb _ (List.getElem_mem hit)) (neg_col_bound _ Hin (hfb _ (List.getElem_mem hif)))⟩
+  have hdw : ∀ c ∈ glweSubSameRank N rs t f, C02L.ColWF N rs c := by
+    rw [hdeq]; intro c hc
+    obtain ⟨i, hi, rfl⟩ := List.mem_map.mp hc
+    exact (hdget i (List.mem_range.mp hi)).1
+  have hdb : ∀ c ∈ glweSubSameRank N rs t f, ∀ l ∈ c, ∀ x ∈ l, |x| ≤ Hin + Hin := by
+    rw [hdeq]; intro c hc
+    obtain ⟨i, hi, rfl⟩ := List.mem_map.mp hc
+    exact (hdget i (List.mem_range.mp hi)).2
+  have hdl : (glweSubSameRank N rs t f).length = g.rank + 1 := by rw [hdeq]; simp
+  have hd0 : ((glweSubSameRank N rs t f).getD 0 []).length = rs := by
+    have h0' : 0 < (glweSubSameRank N rs t f).length := by rw [hdl]; omega
+    rw [List.getD_eq_getElem?_getD, List.getElem?_eq_getElem h0']; exact (hdw _ (List.getElem_mem h0')).1
+  have haD : shapeOk g.n (g.rank + 1) ((glweSubSameRank N rs t f).getD 0 []).length (glweSubSameRank N rs t f) = true := by
+    rw [hgn, hd0]
+    unfold shapeOk
+    simp only [Bool.and_eq_true, beq_iff_eq, List.all_eq_true]
+    exact ⟨hdl, fun c hc => ⟨(hdw c hc).1, fun l hl => (hdw c hc).2 l hl⟩⟩
+  have hPb := ep_headroom N (glweSubSameRank N rs t f) g res0 tmp0 (Hin + Hin) Dm (by linarith) hDm hd hgn haD h0 ht hdb hgd
+  unfold prodAdmissible at hadm
+  obtain ⟨res, hres, hgwf, hdig, En, Q, hE, hQ, hnm, heq⟩ := cmux_decrypts big128 g.base2k rs t f g res0 tmp0 sk
+    (prodBound g.dsize (g.rank + 1) g.dnum N (Hin + Hin) Dm) Hin hg hgb1 hgb (prodBound_nonneg _ _ _ _ _ _ (by linarith) hDm) hH0 hadm hPb hfb
+    (if bit then 1 else 0) σ E hd hN hgn haD h0 ht hM hS hkey
+  refine ⟨res, hres, hgwf, hdig, En, Q, hE, hQ, hnm, ?_⟩
+  -- values
+  have hcov := ep_covered_value N hN (glweSubSameRank N rs t f) g sk σ rs hdl hdw hd hcov1 hcov2 hsk hσ0 hσ
+  have hsub := ι_valP_phase_sub N hN g.base2k rs sk g.rank t f htl hfl htw hfw
+  rw [← hdeq] at hsub
+  have hfne : f ≠ [] := by intro h; rw [h] at hfl; simp at hfl
+  have hfit := ι_valP_phase_fit N hN g.base2k rs g.size sk f hfne hfw hcov1
+  rw [hfl] at hfit
+  unfold epValue at heq
+  unfold epErr
+  rw [hcov, hsub, hfit] at heq
+  have hpow : (2 : Ks.R N) ^ (g.base2k * rs) * ((2 : Ks.R N) ^ g.base2k) ^ (g.size - rs) = (2 : Ks.R N) ^ (g.base2k * g.size) := by
+    rw [← pow_mul, ← pow_add]
+    congr 1
+    rw [← Nat.mul_add]; congr 1; omega
+  cases bit with
+  | true =>
+    simp only [if_true, one_mul] at heq ⊢
+    linear_combination heq + (Ks.ι N (C02L.valP g.base2k N (Core.Ops.phase sk (Ks.mkCt g.base2k N t)))) * hpow
+  | false =>
+    simp only [Bool.false_eq_true, if_false, zero_mul, zero_add] at heq ⊢
+    linear_combination heq + (Ks.ι N (C02L.valP g.base2k N (Core.Ops.phase sk (Ks.mkCt g.base2k N f)))) * hpow
+
+/-- `bit = 1` on the `dsize = 3` GGSW `staleG`, NTT120 accumulator, every hypothesis discharged -/
+example : ∃ res, cmux true 1 staleG.base2k 3 ([[[1], [2], [3]], [[0], [1], [0]]] : List Col) ([[[0], [0], [1]], [[0], [0], [0]]] : List Col) staleG (zeroCols 1 2 4) (zeroCols 1 2 4) = .ok res ∧
+    C02L.GWF 1 (Ks.mkCt staleG.base2k 1 res) := by
+  obtain ⟨res, h1, h2, _⟩ := cmux_selects_with_noise (N := 1) true 3 ([[[1], [2], [3]], [[0], [1], [0]]] : List Col) ([[[0], [0], [1]], [[0], [0], [0]]] : List Col) staleG (zeroCols 1 2 4) (zeroCols 1 2 4) [[1]] true 3 1
+    rfl (by decide) (by decide) (by decide) (by decide) (by decide) (by decide) (by decide) (by decide) (by decide) (by decide)
+    (by decide) (by decide)
+    (fun i => if i = 0 then 1 else Ks.ι 1 [1])
+    (fun i r => Gadget.val ((2 : Ks.R 1) ^ staleG.base2k) staleG.size (Ks.keyPhase 1 [[1]] staleG.toPMat i r)
+      - (if true then 1 else 0) * (if i = 0 then 1 else Ks.ι 1 [1]) * ((2 : Ks.R 1) ^ staleG.base2k) ^ (staleG.size - (r + 1) * staleG.dsize))
+    (by decide) (by decide) (by decide) (by decide) (by decide) (Ks.entry_length staleG.toPMat 1 rfl (by decide)) (by decide)
+    (by intro i _ r _; exact (add_sub_cancel _ _).symm)
+    (by decide) (by decide) (by decide) rfl
+    (by intro i hi; have h0 : i = 0 := by
+          have : i < 1 := hi
+          omega
+        subst h0; rfl)
+  exact ⟨res, h1, h2⟩
+
+/-- **`cswap_swaps_with_noise`** — `Cswap::cswap(res_a, res_b, s)` stated on the INPUTS `(res_a, res_b, bit)`: both accumulator widths, every
+`dsize`, rank and limb count `rs ≤ min(size, dnum·dsize)`.  If the GGSW encrypts the bit, `res_a'` decrypts to `if bit then res_b else res_a` and
+`res_b'` to `if bit then res_a else res_b`, each plus `±2^{b·rs}·epErr` (the gadget error of `d = res_b − res_a`, opposite signs) and its own
+rounding `‖En‖_∞ ≤ (1+Σ‖s_i‖₁)·normTol`. -/
+theorem cswap_swaps_with_noise {N : Nat} (big128 : Bool) (rs : Nat) (ra rbb : List Col) (g : EpGGSW) (res0 tmp0 : List Col) (sk : List Poly)
+    (bit : Bool) (Hin Dm : Int)
+    (hgn : g.n = N) (hgw : g.wf = true) (has : shapeOk N (g.rank + 1) rs ra = true) (hbs : shapeOk N (g.rank + 1) rs rbb = true)
+    (hgb1 : 1 ≤ g.base2k) (hgb : g.base2k ≤ 62)
+    (hH0 : 0 ≤ Hin) (hH : 2 * Hin < 2 ^ 62) (hDm : 0 ≤ Dm)
+    (hab : ∀ c ∈ ra, ∀ l ∈ c, ∀ x ∈ l, |x| ≤ Hin) (hbb : ∀ c ∈ rbb, ∀ l ∈ c, ∀ x ∈ l, |x| ≤ Hin)
+    (hadm : prodAdmissible (bitsOf big128) g.dsize (g.rank + 1) g.dnum N (Hin + Hin) Dm Hin)
+    (hgd : ∀ row ∈ g.cells, ∀ c ∈ row, ∀ l ∈ c, ∀ x ∈ l, |x| ≤ Dm)
+    (σ : ℕ → Ks.R N) (E : ℕ → ℕ → Ks.R N)
+    (hd : 1 ≤ g.dsize) (hN : 0 < N) (h1rs : 1 ≤ rs)
+    (h0 : shapeOk g.n (g.rank + 1) g.size res0 = true) (ht : shapeOk g.n (g.rank + 1) g.size tmp0 = true)
+    (hM : ∀ j q, (g.toPMat.entry j q).length = N) (hS : g.dnum * g.dsize ≤ g.size)
+    (hkey : ∀ i, i < g.rank + 1 → ∀ r, r < g.dnum →
+      Gadget.val ((2 : Ks.R N) ^ g.base2k) g.size (Ks.keyPhase N sk g.toPMat i r)
+        = (if bit then 1 else 0) * σ i * ((2 : Ks.R N) ^ g.base2k) ^ (g.size - (r + 1) * g.dsize) + E i r)
+    (hcov1 : rs ≤ g.size) (hcov2 : rs ≤ g.dnum * g.dsize)
+    (hsk : g.rank ≤ sk.length) (hσ0 : σ 0 = 1) (hσ : ∀ i, i < g.rank → σ (i + 1) = Ks.ι N (sk.getD i [])) :
+    ∃ xa xb, cswap big128 N g.base2k ra rbb g res0 tmp0 = .ok (xa, xb) ∧
+      C02L.GWF N (Ks.mkCt g.base2k N xa) ∧ C02L.GWF N (Ks.mkCt g.base2k N xb) ∧
+      (∃ En Q : Poly, En.length = N ∧ Q.length = N ∧
+        normInf En ≤ (1 + C02L.snorm (min g.rank sk.length) sk) * C02.normTol (g.base2k * rs) (g.base2k * g.size) ∧
+        (2 : Ks.R N) ^ (g.base2k * g.size) * Ks.ι N (C02L.valP g.base2k N (Core.Ops.phase sk (Ks.mkCt g.base2k N xa)))
+          = (2 : Ks.R N) ^ (g.base2k * g.size) * Ks.ι N (C02L.valP g.base2k N (Core.Ops.phase sk (Ks.mkCt g.base2k N (if bit then rbb else ra))))
+            + (2 : Ks.R N) ^ (g.base2k * rs) * epErr N sk (glweSubSameRank N rs rbb ra) g ((2 : Ks.R N) ^ g.base2k) E
+            + Ks.ι N En + (2 : Ks.R N) ^ (g.base2k * rs + g.base2k * g.size) * Ks.ι N Q) ∧
+      (∃ En Q : Poly, En.length = N ∧ Q.length = N ∧
+        normInf En ≤ (1 + C02L.snorm (min g.rank sk.length) sk) * C02.normTol (g.base2k * rs) (g.base2k * g.size) ∧
+        (2 : Ks.R N) ^ (g.base2k * g.size) * Ks.ι N (C02L.valP g.base2k N (Core.Ops.phase sk (Ks.mkCt g.base2k N xb)))
+          = (2 : Ks.R N) ^ (g.base2k * g.size) * Ks.ι N (C02L.valP g.base2k N (Core.Ops.phase sk (Ks.mkCt g.base2k N (if bit then ra else rbb))))
+            - (2 : Ks.R N) ^ (g.base2k * rs) * epErr N sk (glweSubSameRank N rs rbb ra) g ((2 : Ks.R N) ^ g.base2k) E
+            + Ks.ι N En + (2 : Ks.R N) ^ (g.base2k * rs + g.base2k * g.size) * Ks.ι N Q) := by
+  obtain ⟨hal, haw⟩ := wf_of_shapeOk N _ _ ra has
+  obtain ⟨hbl, hbw⟩ := wf_of_shapeOk N _ _ rbb hbs
+  have hH62 : Hin < 2 ^ 62 := by linarith
+  have h0a : 0 < ra.length := by omega
+  have h0b : 0 < rbb.length := by omega
+  have ha0 : (ra.getD 0 []).length = rs := by
+    rw [List.getD_eq_getElem?_getD, List.getElem?_eq_getElem h0a]; exact (haw _ (List.getElem_mem h0a)).1
+  have hb0 : (rbb.getD 0 []).length = rs := by
+    rw [List.getD_eq_getElem?_getD, List.getElem?_eq_getElem h0b]; exact (hbw _ (List.getElem_mem h0b)).1
+  have hmax : max (ra.getD 0 []).length (rbb.getD 0 []).length = rs := by rw [ha0, hb0]; exact Nat.max_self _
+  have hg : (g.n == N && g.wf && shapeOk N (g.rank + 1) (ra.getD 0 []).length ra && shapeOk N (g.rank + 1) (rbb.getD 0 []).length rbb) = true := by
+    rw [ha0, hb0]; simp [hgn, hgw, has, hbs]
+  -- the difference d = rbb − ra
+  have hdeq := glweSub_exact N rs rbb ra Hin hH62 (by rw [hal, hbl]) hbw haw hbb hab
+  rw [hbl] at hdeq
+  have hdget : ∀ i, i < g.rank + 1 → C02L.ColWF N rs (C02L.colAdd (rbb.getD i []) ((ra.getD i []).map polyNeg)) ∧
+      ∀ l ∈ C02L.colAdd (rbb.getD i []) ((ra.getD i []).map polyNeg), ∀ x ∈ l, |x| ≤ Hin + Hin := by
+    intro i hi
+    have hia : i < ra.length := by omega
+    have hib : i < rbb.length := by omega
+    have e1 : rbb.getD i [] = rbb[i] := by simp [List.getD_eq_getElem?_getD, List.getElem?_eq_getElem hib]
+    have e2 : ra.getD i [] = ra[i] := by simp [List.getD_eq_getElem?_getD, List.getElem?_eq_getElem hia]
+    rw [e1, e2]
+    exact ⟨C02L.colAdd_wf (hbw _ (List.getElem_mem hib)) (neg_col_wf (haw _ (List.getElem_mem hia))),
+      colAdd_bound _ _ Hin Hin (hbb _ (List.getElem_mem hib)) (neg_col_bound _ Hin (hab _ (List.getElem_mem hia)))⟩
+  have hdw : ∀ c ∈ glweSubSameRank N rs rbb ra, C02L.ColWF N rs c := by
+    rw [hdeq]; intro c hc
+    obtain ⟨i, hi, rfl⟩ := List.mem_map.mp hc
+    exact (hdget i (List.mem_range.mp hi)).1
+  have hdb : ∀ c ∈ glweSubSameRank N rs rbb ra, ∀ l ∈ c, ∀ x ∈ l, |x| ≤ Hin + Hin := by
+    rw [hdeq]; intro c hc
+    obtain ⟨i, hi, rfl⟩ := List.mem_map.mp hc
+    exact (hdget i (List.mem_range.mp hi)).2
+  have hdl : (glweSubSameRank N rs rbb ra).length = g.rank + 1 := by rw [hdeq]; simp
+  have hd0 : ((glweSubSameRank N rs rbb ra).getD 0 []).length = rs := by
+    have h0' : 0 < (glweSubSameRank N rs rbb ra).length := by rw [hdl]; omega
+    rw [List.getD_eq_getElem?_getD, List.getElem?_eq_getElem h0']; exact (hdw _ (List.getElem_mem h0')).1
+  have haD : shapeOk g.n (g.rank + 1) ((glweSubSameRank N rs rbb ra).getD 0 []).length (glweSubSameRank N rs rbb ra) = true := by
+    rw [hgn, hd0]
+    unfold shapeOk
+    simp only [Bool.and_eq_true, beq_iff_eq, List.all_eq_true]
+    exact ⟨hdl, fun c hc => ⟨(hdw c hc).1, fun l hl => (hdw c hc).2 l hl⟩⟩
+  have hPb := ep_headroom N (glweSubSameRank N rs rbb ra) g res0 tmp0 (Hin + Hin) Dm (by linarith) hDm hd hgn haD h0 ht hdb hgd
+  unfold prodAdmissible at hadm
+  obtain ⟨xa, xb, hcall, hwa, hwb, ⟨EnA, QA, hEA, hQA, hnA, heA⟩, ⟨EnB, QB, hEB, hQB, hnB, heB⟩⟩ := cswap_decrypts big128 g.base2k ra rbb g res0 tmp0 sk
+    (prodBound g.dsize (g.rank + 1) g.dnum N (Hin + Hin) Dm) Hin hg rfl hgb1 hgb (prodBound_nonneg _ _ _ _ _ _ (by linarith) hDm) hH0 hadm
+    (by rw [hmax]; exact hPb) hab hbb (if bit then 1 else 0) σ E hd hN hgn (by rw [hmax]; exact haD) h0 ht hM hS hkey
+  rw [hmax] at heA heB
+  rw [ha0] at heA hnA
+  rw [hb0] at heB hnB
+  have hcov := ep_covered_value N hN (glweSubSameRank N rs rbb ra) g sk σ rs hdl hdw hd hcov1 hcov2 hsk hσ0 hσ
+  have hsub := ι_valP_phase_sub N hN g.base2k rs sk g.rank rbb ra hbl hal hbw haw
+  rw [← hdeq] at hsub
+  have hane : ra ≠ [] := by intro h; rw [h] at hal; simp at hal
+  have hbne : rbb ≠ [] := by intro h; rw [h] at hbl; simp at hbl
+  have hfita := ι_valP_phase_fit N hN g.base2k rs g.size sk ra hane haw hcov1
+  have hfitb := ι_valP_phase_fit N hN g.base2k rs g.size sk rbb hbne hbw hcov1
+  rw [hal] at hfita
+  rw [hbl] at hfitb
+  unfold epValue at heA heB
+  rw [hcov, hsub, hfita] at heA
+  rw [hcov, hsub, hfitb] at heB
+  have hpow : (2 : Ks.R N) ^ (g.base2k * rs) * ((2 : Ks.R N) ^ g.base2k) ^ (g.size - rs) = (2 : Ks.R N) ^ (g.base2k * g.size) := by
+    rw [← pow_mul, ← pow_add]
+    congr 1
+    rw [← Nat.mul_add]; congr 1; omega
+  refine ⟨xa, xb, hcall, hwa, hwb, ⟨EnA, QA, hEA, hQA, hnA, ?_⟩, ⟨EnB, QB, hEB, hQB, hnB, ?_⟩⟩
+  · unfold epErr
+    cases bit with
+    | true =>
+      simp only [if_true, one_mul] at heA ⊢
+      linear_combination heA + (Ks.ι N (C02L.valP g.base2k N (Core.Ops.phase sk (Ks.mkCt g.base2k N rbb)))) * hpow
+    | false =>
+      simp only [Bool.false_eq_true, if_false, zero_mul, zero_add] at heA ⊢
+      linear_combination heA + (Ks.ι N (C02L.valP g.base2k N (Core.Ops.phase sk (Ks.mkCt g.base2k N ra)))) * hpow
+  · unfold epErr
+    cases bit with
+    | true =>
+      simp only [if_true, one_mul] at heB ⊢
+      linear_combination heB + (Ks.ι N (C02L.valP g.base2k N (Core.Ops.phase sk (Ks.mkCt g.base2k N ra)))) * hpow
+    | false =>
+      simp only [Bool.false_eq_true, if_false, zero_mul, zero_add] at heB ⊢
+      linear_combination heB + (Ks.ι N (C02L.valP g.base2k N (Core.Ops.phase sk (Ks.mkCt g.base2k N rbb)))) * hpow
+
+example : ∃ xa xb, cswap true 1 staleG.base2k ([[[1], [2], [3]], [[0], [1], [0]]] : List Col) ([[[0], [0], [1]], [[0], [0], [0]]] : List Col) staleG (zeroCols 1 2 4) (zeroCols 1 2 4) = .ok (xa, xb) ∧
+    C02L.GWF 1 (Ks.mkCt staleG.base2k 1 xa) ∧ C02L.GWF 1 (Ks.mkCt staleG.base2k 1 xb) := by
+  obtain ⟨xa, xb, h1, h2, h3, _⟩ := cswap_swaps_with_noise (N := 1) true 3 ([[[1], [2], [3]], [[0], [1], [0]]] : List Col) ([[[0], [0], [1]], [[0], [0], [0]]] : List Col) staleG (zeroCols 1 2 4) (zeroCols 1 2 4) [[1]] false 3 1
+    rfl (by decide) (by decide) (by decide) (by decide) (by decide) (by decide) (by decide) (by decide) (by decide) (by decide)
+    (by decide) (by decide)
+    (fun i => if i = 0 then 1 else Ks.ι 1 [1])
+    (fun i r => Gadget.val ((2 : Ks.R 1) ^ staleG.base2k) staleG.size (Ks.keyPhase 1 [[1]] staleG.toPMat i r)
+      - (if false then 1 else 0) * (if i = 0 then 1 else Ks.ι 1 [1]) * ((2 : Ks.R 1) ^ staleG.base2k) ^ (staleG.size - (r + 1) * staleG.dsize))
+    (by decide) (by decide) (by decide) (by decide) (by decide) (Ks.entry_length staleG.toPMat 1 rfl (by decide)) (by decide)
+    (by intro i _ r _; exact (add_sub_cancel _ _).symm)
+    (by decide) (by decide) (by decide) rfl
+    (by intro i hi; have h0 : i = 0 := by
+          have : i < 1 := hi
+          omega
+        subst h0; rfl)
+  exact ⟨xa, xb, h1, h2, h3⟩
 
 end C04
